@@ -44,8 +44,8 @@ WORLDS = {
 
 # sessions per quick run (tuned to roughly a minute on 16 cores)
 QUICK_SESSIONS = {
-    'C01': 12000, 'C02': 5000, 'C03': 14000, 'C04': 9000, 'C05': 20000, 'C08': 1600, 'C09': 800, 'C10': 1400,
-    'C11': 10000, 'C12': 8000, 'C13': 8000, 'C14': 7000, 'C15': 6000, 'C16': 20000, 'C17': 16000, 'C19': 12000, 'C20': 5000,
+    'C01': 24000, 'C02': 10000, 'C03': 28000, 'C04': 18000, 'C05': 36000, 'C08': 3200, 'C09': 1400, 'C10': 2600,
+    'C11': 18000, 'C12': 16000, 'C13': 16000, 'C14': 10000, 'C15': 10000, 'C16': 36000, 'C17': 28000, 'C19': 20000, 'C20': 10000,
 }
 CHUNK = {'tn': 8, 'gr': 50, 'kr': 40}
 
@@ -392,7 +392,13 @@ def run_check(prop, tier='quick', batch_seed=0, budget_s=None, sessions=None, wo
             small = shrink(sess, prop, cls)
         except Exception:
             small = sess
-        path = write_replay(prop, tier, batch_seed, sess, v, small)
+        try:
+            rs = execute_quiet(small)
+            vs = [x for x in focus_violations(rs, prop) if vclass(x) == cls]
+            vshrunk = vs[0] if vs else v
+        except Exception:
+            vshrunk = v
+        path = write_replay(prop, tier, batch_seed, sess, vshrunk, small)
         reported.append({'k': item['k'], 'seed': sess['seed'], 'clause': v['clause'], 'op': v['op'], 'detail': v['detail'], 'replay': path,
                          'ops': len(small['ops'])})
     det = None
